@@ -30,6 +30,12 @@ where
     tracing::trace!("h11c_connect: channel={}", frame_channel);
     let target = ctx.read().await.target();
     let feature = ctx.read().await.feature();
+    if let crate::context::TargetAddress::DomainPort(host, _) = &target {
+        // the request line and the Host header are delimited by spaces and CRLF
+        if host.is_empty() || host.bytes().any(|b| b <= b' ' || b == 0x7f) {
+            bail!("target host can not be carried in a CONNECT request: {:?}", host);
+        }
+    }
     match feature {
         Feature::TcpForward => {
             HttpRequest::new("CONNECT", &target)
